@@ -159,7 +159,13 @@ def templates(rng):
         ('Peek(Byte)', 'none'), ('Seek(%s %% 2, 1)' % I(1), 'none'), ('Tell', 'none'), ('Pass', 'none'), ('Terminated', 'skip'),
         ('BytesInteger(%s %% 3 + 1)' % I(1), 'int'), ('BitStruct("u"/Nibble, "v"/BitsInteger(4))', 'bits'), ('ByteSwapped(Int16ub)', 'int16'),
         ('Hex(Int16ub)', 'int16'), ('NullTerminated(GreedyBytes)', 'nozero'), ('CString("utf8")', 'str'), ('VarInt', 'varint'), ('Bytes(2)', 'int2bytes'),
-        ('Padding(%s %% 3)' % I(1), 'none'), ('Flag', 'flag'), ('Optional(Const(b"Q"))', 'none'), ('GreedyRange(Const(b"\\x05"))', 'none'),
+        ('Padding(%s %% 3)' % I(1), 'none'), ('Flag', 'flag'),
+        # a later member depends on the value an earlier member BUILT (Rebuild / Default / Const fill-ins), in every composite
+        ('Sequence("n"/Rebuild(Byte, 2), Array(this.n, Byte))', 'dep_seq'), ('Sequence("n"/Default(Byte, 2), "q"/Padding(this.n), Byte)', 'dep_seq2'),
+        ('Sequence("n"/Const(2, Byte), If(this.n == 2, Byte))', 'dep_seq3'), ('Struct("n"/Rebuild(Byte, len_(this.v)), "v"/Array(this.n, Byte))', 'dep_struct'),
+        ('Struct("n"/Default(Byte, 1), "q"/Padding(this.n), "v"/Switch(this.n, {1: Byte}, default=Int16ub))', 'dep_struct2'),
+        ('FocusedSeq("v", "n"/Rebuild(Byte, len_(this.v)), "v"/Array(this.n, Byte))', 'dep_focus'),
+        ('Struct("n"/Rebuild(Byte, this._.a %% 3), "v"/Array(this.n, Byte), "w"/Bytes(this.n))', 'dep_struct3'), ('Optional(Const(b"Q"))', 'none'), ('GreedyRange(Const(b"\\x05"))', 'none'),
     ]
 
 
@@ -216,6 +222,22 @@ def member_value(rng, kind, h):
         return r.choice([b'ab', 1, 258, bytearray(b'xy')])
     if kind == 'flag':
         return r.choice([True, False, 0, 1, 2, '', 'x'])
+    if kind == 'dep_seq':
+        return [r.choice([None, 2, 1]), [r.randrange(256), r.randrange(256)]]
+    if kind == 'dep_seq2':
+        return [r.choice([None, 2, 0]), None, r.randrange(256)]
+    if kind == 'dep_seq3':
+        return [r.choice([None, 2]), r.randrange(256)]
+    if kind == 'dep_struct':
+        v = [r.randrange(256) for _ in range(r.randint(0, 3))]
+        return r.choice([dict(v=v), dict(n=0, v=v), dict(n=len(v), v=v)])
+    if kind == 'dep_struct2':
+        return r.choice([dict(v=5), dict(n=None, v=5), dict(n=1, v=5), dict(n=2, v=300)])
+    if kind == 'dep_focus':
+        return [r.randrange(256) for _ in range(r.randint(0, 3))]
+    if kind == 'dep_struct3':
+        k = h['a'] % 3
+        return r.choice([dict(v=[1] * k, w=b'x' * k), dict(n=9, v=[1] * k, w=b'x' * k)])
     return None
 
 
